@@ -6,6 +6,12 @@ F(h, rows) == [header |-> h, rows |-> rows]
 FileU == { F(<<"a", "b">>, << >>), F(<<"a", "b">>, << <<"1", "x">> >>), F(<<"a", "b">>, << <<"1", "x">>, <<"2", "y">>, <<"3", "">> >>),
            F(<<"b", "a">>, << <<"p", "4">>, <<"q", "5">> >>), F(<<"c">>, << <<"7">> >>), F(<<"a", "b", "c">>, << <<"1", "2", "3">>, <<"4", "5", "6">> >>) }
 FileLists == UNION {[1..n -> FileU] : n \in 1..MaxFiles}
+\* block files (CSV-lite, PPRINT): one to three non-empty blocks with same-width and different-width headers
+BlockU == { F(<<"a", "b">>, << <<"1", "x">> >>), F(<<"a", "b">>, << <<"1", "x">>, <<"2", "y">> >>), F(<<"b", "a">>, << <<"p", "4">> >>),
+            F(<<"d", "e">>, << <<"5", "6">>, <<"7", "8">> >>), F(<<"c">>, << <<"7">> >>), F(<<"a", "b", "c">>, << <<"1", "2", "3">> >>) }
+\* (consecutive blocks have different headers: the same header again would not be a schema change)
+BlockFiles == {bf \in UNION {[1..n -> BlockU] : n \in 1..3} : \A i \in 1..(Len(bf) - 1) : bf[i].header # bf[i + 1].header}
+BlockFileLists == {<<bf>> : bf \in BlockFiles} \cup {<<a, b>> : a \in {x \in BlockFiles : Len(x) <= 2}, b \in {x \in BlockFiles : Len(x) <= 2}}
 \* chains over the composable configurations of VerbsSelectCases-like space (smaller)
 P(k, v) == <<k, v>>
 RU == { <<P("a", "1"), P("b", "x")>>, <<P("a", "2"), P("b", "y")>>, <<P("a", "1"), P("b", "y")>>, <<P("b", "x")>>, <<P("a", "1")>> }
